@@ -297,11 +297,17 @@ func (d *Driver) Next() Event {
 		case "Blocks":
 			return d.blocksEvent()
 		case "StoreNew":
-			if d.nd >= d.P.MaxData {
+			// a data id that does not exist (any more): fresh ids first, later also re-creation of deleted ones
+			var free []string
+			for i := 1; i <= d.P.MaxData; i++ {
+				if d.findMeta(fmt.Sprintf("D%d", i)) == nil {
+					free = append(free, fmt.Sprintf("D%d", i))
+				}
+			}
+			if len(free) == 0 {
 				continue
 			}
-			d.nd++
-			data := fmt.Sprintf("D%d", d.nd)
+			data := free[d.R.Intn(len(free))]
 			owner := d.pick(d.ownerDids())
 			cr, pv := d.gatewayFor(d.R)
 			rep := int64(1 + d.R.Intn(3))
@@ -339,6 +345,41 @@ func (d *Driver) Next() Event {
 				op = 2
 			}
 			return Event{Kind: "Store", Creator: cr, Provider: pv, Gw: pv, Owner: signer, Signer: signer, Data: m.Data, Commit: m.Commit + "|" + newc, Op: op, Dur: d.pickI(d.P.Durs), Replica: int64(1 + d.R.Intn(3)), Timeout: d.pickI(d.P.Timeouts), Size: d.pickI(d.P.Sizes), Alias: m.Alias}
+		case "StoreForeign":
+			// somebody who is neither owner nor grantee signs his own, perfectly valid update of the model,
+			// with every shape of base version
+			if len(d.St.Metas) == 0 {
+				continue
+			}
+			m := d.St.Metas[d.R.Intn(len(d.St.Metas))]
+			var others []string
+			for _, x := range d.ownerDids() {
+				if x != m.Owner {
+					others = append(others, x)
+				}
+			}
+			if len(others) == 0 {
+				continue
+			}
+			sg := d.pick(others)
+			d.nc++
+			newc := fmt.Sprintf("c%d", d.nc)
+			base := []string{m.Commit, m.Commit, m.Data, "", m.Commit + "~"}[d.R.Intn(5)]
+			cr, pv := d.gatewayFor(d.R)
+			return Event{Kind: "Store", Creator: cr, Provider: pv, Gw: pv, Owner: sg, Signer: sg, Data: m.Data, Commit: base + "|" + newc, Op: int64(1 + d.R.Intn(2)),
+				Dur: d.pickI(d.P.Durs), Replica: 1, Timeout: d.pickI(d.P.Timeouts), Size: d.pickI(d.P.Sizes), Alias: m.Alias}
+		case "StoreOddBase":
+			// the owner himself names a base that is not exactly the latest version
+			if len(d.St.Metas) == 0 {
+				continue
+			}
+			m := d.St.Metas[d.R.Intn(len(d.St.Metas))]
+			d.nc++
+			newc := fmt.Sprintf("c%d", d.nc)
+			base := []string{"", m.Commit + "~", m.Data, "c999"}[d.R.Intn(4)]
+			cr, pv := d.gatewayFor(d.R)
+			return Event{Kind: "Store", Creator: cr, Provider: pv, Gw: pv, Owner: m.Owner, Signer: m.Owner, Data: m.Data, Commit: base + "|" + newc, Op: 1,
+				Dur: d.pickI(d.P.Durs), Replica: 1, Timeout: d.pickI(d.P.Timeouts), Size: d.pickI(d.P.Sizes), Alias: m.Alias}
 		case "Complete":
 			var cands []PShard
 			for _, s := range d.St.Shards {
